@@ -3,7 +3,10 @@
 package slip
 
 import (
+	"encoding/json"
 	"fmt"
+	"math/big"
+	"strconv"
 	"time"
 	"unsafe"
 )
@@ -96,6 +99,14 @@ func SimpleObject(val any) (obj Object) {
 		obj = SingleFloat(tv)
 	case float64:
 		obj = DoubleFloat(tv)
+	case json.Number:
+		if i, err := strconv.ParseInt(string(tv), 10, 64); err == nil {
+			obj = Fixnum(i)
+		} else if bi, ok := new(big.Int).SetString(string(tv), 10); ok {
+			obj = (*Bignum)(bi)
+		} else if f, _, err := big.ParseFloat(string(tv), 10, uint(prec10t2*float64(len(tv))), big.ToNearestAway); err == nil {
+			obj = (*LongFloat)(f)
+		}
 
 	case string:
 		obj = String(tv)
